@@ -551,40 +551,88 @@ TREE_PATTERNS = ['asc-asc', 'asc-desc', 'desc-asc', 'desc-desc', 'rand-rand', 'w
 TREE_GRADS = ['rand', 'inc', 'dec', 'tie', 'spike', 'zero']
 
 
-def check_tree_case(ctx, case, real=None):
+def run_real(case):
+    """run the implementation on one case (whole viewshed, or the tree functions driven directly)"""
+    if case.get('fn') == 'treeops':
+        try:
+            return run_tree_real([tuple(o) for o in case['ops']])
+        except Exception as e:          # the private tree API moved: the refinement can no longer be exercised
+            return 'EXC %s: %s' % (type(e).__name__, e)
+    return run_impl(case)
+
+
+def forked_run(cases):
+    """Run the implementation on every case in a forked child (the jitted status tree does no bounds checking: a
+    broken rotation can corrupt memory and kill the interpreter).  Returns (results, crash) where results may be
+    shorter than cases and crash = None or a description; the case that crashed is cases[len(results)]."""
+    import os
+    import pickle
+    import struct
+    rfd, wfd = os.pipe()
+    pid = os.fork()
+    if pid == 0:
+        code = 0
+        try:
+            os.close(rfd)
+            with os.fdopen(wfd, 'wb') as w:
+                for c in cases:
+                    blob = pickle.dumps(run_real(c))
+                    w.write(struct.pack('<Q', len(blob)) + blob)
+                    w.flush()
+        except BaseException:
+            code = 3
+        finally:
+            os._exit(code)
+    os.close(wfd)
+    results = []
+    with os.fdopen(rfd, 'rb') as r:
+        while True:
+            h = r.read(8)
+            if len(h) < 8:
+                break
+            n = struct.unpack('<Q', h)[0]
+            blob = r.read(n)
+            if len(blob) < n:
+                break
+            results.append(pickle.loads(blob))
+    _, status = os.waitpid(pid, 0)
+    crash = None
+    if len(results) < len(cases):
+        if os.WIFSIGNALED(status):
+            crash = 'the interpreter was killed by signal %d' % os.WTERMSIG(status)
+        else:
+            crash = 'the worker exited with status %d' % os.WEXITSTATUS(status)
+    return results, crash
+
+
+def check_tree_case(ctx, case, real):
     ops = [tuple(o) for o in case['ops']]
-    real = run_tree_real(ops) if real is None else real
+    if isinstance(real, str):
+        ctx.violation('correspondence', 'cannot drive the status tree of viewshed.py directly: %s' % real, dict(case, ops=[]))
+        return False
     exp = run_tree_oracle(ops)
     for j, (a, b) in enumerate(zip(real, exp)):
         if a != b:
-            live = sorted(set(o[1] for o in ops[:j] if o[0] == 'I') - set())
             ctx.violation('oracle', 'status tree: after %d operations (%s) the real tree answers %s for op %r, brute force '
                           'over the live nodes says %s' % (j, case['pattern'], a, ops[j], b),
                           dict(case, op_index=j, got=a, expected=b))
-            return real, False
-    return real, True
+            return False
+    return True
 
 
-def run_tree_stream(ctx):
+def gen_tree_cases(ctx):
     rng = ctx.rng
     nseq = 120 if ctx.quick() else 3000
-    pending = []
     for s in range(nseq):
         pattern = TREE_PATTERNS[s % len(TREE_PATTERNS)]
         gpat = TREE_GRADS[(s // len(TREE_PATTERNS)) % len(TREE_GRADS)]
         n = rng.choice([3, 5, 8, 13, 21, 34, 48]) if ctx.quick() else rng.choice([2, 3, 5, 8, 13, 21, 34, 55, 89])
         ops = gen_tree_ops(rng, pattern, n, gpat)
-        case = dict(fn='treeops', pattern=pattern, grads=gpat, n=n, ops=[list(o) for o in ops])
-        ctx.case(case, nontrivial=True)
-        ctx.count('treeops/%s' % pattern)
-        try:
-            real, ok = check_tree_case(ctx, case)
-        except Exception as e:      # the private tree API moved: the refinement can no longer be exercised
-            ctx.violation('correspondence', 'cannot drive the status tree of viewshed.py directly: %s: %s' % (
-                type(e).__name__, e), dict(case, ops=[]))
-            return
-        pending.append((case, real))
-    if ctx.model is None:
+        yield dict(fn='treeops', pattern=pattern, grads=gpat, n=n, ops=[list(o) for o in ops])
+
+
+def compare_tree_model(ctx, pending):
+    if ctx.model is None or not pending:
         return
     outs = ctx.model.run([tree_line([tuple(o) for o in c['ops']]) for c, _ in pending])
     for (case, real), mo in zip(pending, outs):
@@ -723,10 +771,17 @@ def gen_cases(ctx):
         yield mk_case(rng, rng.choice(FAMILIES), R, C, vr, vc, off=['near', 'mid', 'out', 'near'][i % 4])
 
 
-def run(ctx):
-    pending = []
-    for case in gen_cases(ctx):
-        impl = run_impl(case)
+def process(ctx, cases):
+    """run every case in the forked worker, then oracle + model comparison in this process"""
+    results, crash = forked_run(cases)
+    vpending, tpending = [], []
+    for case, impl in zip(cases, results):
+        if case.get('fn') == 'treeops':
+            ctx.case(case, nontrivial=True)
+            ctx.count('treeops/%s' % case['pattern'])
+            if check_tree_case(ctx, case, impl):
+                tpending.append((case, impl))
+            continue
         hidden = (not isinstance(impl, str)) and any(v == -1 for row in impl for v in row)
         ctx.case(case, nontrivial=hidden)
         R, C = len(case['grid']), len(case['grid'][0])
@@ -735,10 +790,21 @@ def run(ctx):
         ctx.count('dtype/%s' % case['dtype'])
         ctx.count('result/%s' % ('ValueError' if isinstance(impl, str) else ('some-hidden' if hidden else 'all-visible')))
         check_oracle(ctx, case, impl)
-        pending.append((case, impl))
+        vpending.append((case, impl))
+    if crash is not None:
+        bad = cases[len(results)]
+        ctx.case(bad)
+        ctx.violation('oracle', '%s while the implementation ran this input (%s): memory corruption in the jitted status '
+                      'tree' % (crash, 'tree operation sequence' if bad.get('fn') == 'treeops' else 'viewshed call'), dict(bad))
+    return vpending, tpending, crash
+
+
+def run(ctx):
+    cases = list(gen_cases(ctx)) + list(gen_tree_cases(ctx))
+    vpending, tpending, crash = process(ctx, cases)
     ctx.exhaustive = False
-    compare_model(ctx, pending)
-    run_tree_stream(ctx)
+    compare_model(ctx, vpending)
+    compare_tree_model(ctx, tpending)
 
 
 def search(ctx):
@@ -748,15 +814,13 @@ def search(ctx):
     model = ctx.model
     ctx.model = None
     try:
-        n = 0
+        cases = []
         for case in gen_cases(ctx):
-            n += 1
-            if n > 6000:
+            cases.append(case)
+            if len(cases) >= 6000:
                 break
-            impl = run_impl(case)
-            ctx.case(case, nontrivial=False)
-            if not check_oracle(ctx, case, impl):
-                break
+        cases += list(gen_tree_cases(ctx))[:600]
+        process(ctx, cases)
     finally:
         ctx.tier = old
         ctx.model = model
@@ -764,15 +828,8 @@ def search(ctx):
 
 def replay_case(ctx, case):
     case = dict(case)
-    if case.get('fn') == 'treeops':
-        for k in ('op_index', 'got', 'expected'):
-            case.pop(k, None)
-        ctx.case(case)
-        check_tree_case(ctx, case)
-        return
-    for k in ('cell', 'got', 'expected', 'implementation', 'reference', 'impl', 'model'):
+    for k in ('op_index', 'cell', 'got', 'expected', 'implementation', 'reference', 'impl', 'model'):
         case.pop(k, None)
-    case['grid'] = [[float(v) for v in row] for row in case['grid']]
-    ctx.case(case)
-    impl = run_impl(case)
-    check_oracle(ctx, case, impl)
+    if case.get('fn') != 'treeops':
+        case['grid'] = [[float(v) for v in row] for row in case['grid']]
+    process(ctx, [case])
